@@ -644,12 +644,16 @@ def analyse(cls, kw, route, evaluate, observe_direct, is_known,
 
 
 # extra enabling contexts for the one-option-at-a-time enumeration: options
-# that are only observable next to another one (is_quantized_clip /  use_ste
-# need qnoise_factor < 1, relu_upper_bound needs is_quantized_clip=False; the
+# that are only admissible / observable next to another one (elements_per_scale
+# needs auto_po2 + scale_axis, is_quantized_clip / use_ste need
+# qnoise_factor < 1, relu_upper_bound needs is_quantized_clip=False; the
 # use_ste contexts are configurations where the two formulas differ in the
 # last ulp on the probes)
+_EPS_CTX = [{"alpha": "auto_po2", "scale_axis": 0},
+            {"alpha": "auto_po2", "scale_axis": [0, 1]}]
 EXTRA_CONTEXTS = {
-    "quantized_bits": [{"alpha": 2.0, "qnoise_factor": 0.5}],
+    "quantized_bits": [{"alpha": 2.0, "qnoise_factor": 0.5}] + _EPS_CTX,
+    "binary": _EPS_CTX,
     "quantized_relu": [{"qnoise_factor": 0.5}, {"is_quantized_clip": False},
                        {"qnoise_factor": 0.5, "use_stochastic_rounding": True,
                         "bits": 4, "integer": 1}],
